@@ -87,7 +87,7 @@ Proof. exact label_attaches_to_next_statement. Qed.
 Print Assumptions C05_label_attaches_to_next_statement.
 
 (* COMPLETENESS at token level (proofs/StmtTrip.v): every statement x built from expression statements, `;`, return /
-   break / continue / goto, if with and without else, while, do-while, for with any of its clauses absent and
+   break / continue / goto, labelled statements (`name: statement`, the label attaches to the ONE statement after it), if with and without else, while, do-while, for with any of its clauses absent and
    brace-enclosed blocks, nested in any way - written as the token sequence [stoks rp x], is parsed by p_pragmacomp_or_statement (the production behind every
    sub-statement position) to exactly x: each `else` goes to the nearest if that can take it, loop bodies and branches are
    exactly one statement, nothing is lost or reordered.  Side conditions = C's dangling-else rule (swf, and no `else` after
